@@ -29,7 +29,7 @@ git reset -q 2>/dev/null
 res_build=FAIL; (go build ./... && go vet ./...) >>$LOG 2>&1 && res_build=PASS
 res_suite=FAIL; (go test -count=1 -vet=off ./...) >>$LOG 2>&1 && res_suite=PASS
 for d in $DEMOS; do cp $d $PKG/zz_$(basename $d); done
-res_mut=PASS; ( eval "timeout 300 $RUN" ) >>$LOG 2>&1 || res_mut=FAIL
+res_mut=PASS; for try in 1 2 3 4; do ( eval "timeout 300 $RUN" ) >>$LOG 2>&1 || { res_mut=FAIL; break; }; done
 rm -f $PKG/zz_*_test.go
 git diff > /tmp/vs/$ID.patch
 echo "$ID: demo_clean=$res_clean build_vet=$res_build suite=$res_suite demo_mutant=$res_mut"
